@@ -1461,6 +1461,7 @@ func (l *lexer) scanCmdSubst(r rune) bool {
 			aliases:  l.aliases,
 			line:     l.line,
 			col:      l.col,
+			pos:      l.pos,
 		}
 		ll.mark(off)
 		ll.last.Store(ll.pos)
